@@ -122,6 +122,10 @@ type Unit struct {
 	errs     []string
 	topEntry *State
 	topParams []Val
+	blockCover map[int]int
+	preciseNote bool
+	qfPrelude string
+	pruned, pruneCalls int
 }
 
 func (e *Engine) NewUnit(fn *ssa.Function, c *FuncContract) *Unit {
@@ -302,6 +306,20 @@ func (u *Unit) heapSet(st *State, comp, arrSort string, t Term) {
 	st.add(fmt.Sprintf("(declare-const %s %s)", name, arrSort))
 	st.add(fmt.Sprintf("(assert (= %s %s))", name, t))
 	st.heap[comp] = name
+	if st.discover != nil && !u.preciseNote {
+		// a write that is not recorded precisely by its caller: the whole component is in the loop's write set
+		st.discover.noteWhole(comp, arrSort)
+	}
+}
+
+// heapSetAt: a write whose only affected address is ref (recorded precisely for loop write sets).
+func (u *Unit) heapSetAt(st *State, comp, arrSort string, t Term, ref Term) {
+	u.preciseNote = true
+	u.heapSet(st, comp, arrSort, t)
+	u.preciseNote = false
+	if st.discover != nil {
+		st.discover.noteHeap(comp, arrSort, ref)
+	}
 }
 
 func (u *Unit) heapHavoc(st *State, comp, arrSort string) {
@@ -359,7 +377,9 @@ func (u *Unit) writeLoc(st *State, l loc, v Term) {
 	} else {
 		nt = fmt.Sprintf("(store %s %s %s)", h, l.ref, v)
 	}
+	u.preciseNote = true
 	u.heapSet(st, l.comp, l.arrSort, nt)
+	u.preciseNote = false
 	if st.discover != nil {
 		st.discover.noteHeap(l.comp, l.arrSort, l.ref)
 	}
